@@ -122,6 +122,11 @@ def _optimized_interpreter(res):
         r = subprocess.run([sys.executable, "-B", flag, "-c", _SUB, REPO, json.dumps(chs)],
                            capture_output=True, text=True)
         if r.returncode != 0:
+            from vlib import optrun
+            if optrun.library_fault(r.stderr):
+                res.violation(Violation("hash_under_optimized_interpreter", {"challenge": chs[0], "pyflag": flag},
+                                        ref_hash(chs[0]), optrun.fault_line(r.stderr), f"python {flag}: library unusable"))
+                return
             raise RuntimeError(f"python {flag} helper failed: {r.stderr[-800:]}")
         got = json.loads(r.stdout.strip().splitlines()[-1])
         res.extra["optimized_interpreter_calls"] = res.extra.get("optimized_interpreter_calls", 0) + len(chs)
